@@ -136,12 +136,15 @@ func (s *c21PollSource) Run(ctx execution.ExecutionContext, produce execution.Pr
 // ---------- running with a consumer budget ----------
 
 func c21Collect(n execution.Node, budget int) (out []Msg, status string) {
+	return c21CollectCtx(n, budget, execution.ExecutionContext{Context: context.Background()})
+}
+
+func c21CollectCtx(n execution.Node, budget int, ctx execution.ExecutionContext) (out []Msg, status string) {
 	defer func() {
 		if r := recover(); r != nil {
 			status = "panic"
 		}
 	}()
-	ctx := execution.ExecutionContext{Context: context.Background()}
 	err := n.Run(ctx,
 		func(_ execution.ProduceContext, r execution.Record) error {
 			if budget >= 0 && len(out) >= budget {
@@ -352,6 +355,28 @@ func driveC21(toks []string) string {
 			return "err:materialize"
 		}
 		out, status := c21Collect(node, budget)
+		return c21Line(status, c21EncodeMsgs(out, nil))
+	case "range2":
+		// bounds = variables of the enclosing record; the node is run under (s1, e1), then again under (s2, e2)
+		s1, rest := ParseValue(head[1:])
+		e1, rest := ParseValue(rest)
+		s2, rest := ParseValue(rest)
+		e2, _ := ParseValue(rest)
+		venv := physical.Environment{VariableContext: &physical.VariableContext{Fields: []physical.SchemaField{{Name: "s", Type: octosql.Int}, {Name: "e", Type: octosql.Int}}}}
+		varArg := func(name string) physical.TableValuedFunctionArgument {
+			return physical.TableValuedFunctionArgument{
+				TableValuedFunctionArgumentType: physical.TableValuedFunctionArgumentTypeExpression,
+				Expression: &physical.TableValuedFunctionArgumentExpression{Expression: physical.Expression{
+					Type: octosql.Int, ExpressionType: physical.ExpressionTypeVariable, Variable: &physical.Variable{Name: name, IsLevel0: true},
+				}},
+			}
+		}
+		node, err := tvf.Range.Descriptors[0].Materialize(bg, venv, map[string]physical.TableValuedFunctionArgument{"start": varArg("s"), "end": varArg("e")})
+		if err != nil {
+			return "err:materialize"
+		}
+		c21CollectCtx(node, -1, execution.ExecutionContext{Context: context.Background()}.WithRecord(execution.Record{Values: []octosql.Value{s1, e1}}))
+		out, status := c21CollectCtx(node, -1, execution.ExecutionContext{Context: context.Background()}.WithRecord(execution.Record{Values: []octosql.Value{s2, e2}}))
 		return c21Line(status, c21EncodeMsgs(out, nil))
 	case "schema":
 		return c21DriveSchema(head[1:])
@@ -769,6 +794,7 @@ func genC21(g *Gen, tier string, w *bufio.Writer) {
 		s := g.Intn(41) - 20
 		e := s + g.Intn(12)
 		fmt.Fprintf(w, "range i%d i%d %d\n", s, e, g.Intn(e-s+2))
+		fmt.Fprintf(w, "range2 i%d i%d i%d i%d\n", g.Intn(9)-4, g.Intn(9)-2, s, e)
 	}
 	for _, l := range []string{
 		"range n i3 -1", "range i-2 n -1", "range n n -1", "range i9223372036854775800 i9223372036854775807 -1",
